@@ -51,7 +51,7 @@ PROPS = {
                   "C11_staged_ids_distinct", "C11_group_size_bounded",
                   "C11_builder_panics_only_on_unknown_dependency", "C11_run_exactly_once",
                   "C11_dependencies_complete_first", "C11_no_conflicting_overlap", "C11_borrow_never_refused",
-                  "C11_all_steps_safe", "C11_decl_matches_fetch", "C11_decl_matches_fetch_tuple",
+                  "C11_all_steps_safe", "C11_borrow_never_refused_fine", "C11_decl_matches_fetch", "C11_decl_matches_fetch_tuple",
                   "C11_fetch_then_probe", "C11_fetch_order_irrelevant", "C11_handles_self_ok"],
         required="faithful",
         nontrivial="the real builder's tree has a stage with two groups and a forced sequencing; really dispatched",
